@@ -1,10 +1,11 @@
 /- Driver/Main.lean — JSON-lines driver: one request per line on stdin, one reply per line. -/
 import Driver.OpsFactor
 import Driver.OpsCPD
+import Driver.OpsGraph
 open Lean PgmVerif PgmVerif.Drv
 
 def handlers : List (String → Json → Option (Except String Json)) :=
-  [handleFactor, handleCPD]
+  [handleFactor, handleCPD, handleGraph]
 
 def handle (op : String) (j : Json) : Except String Json :=
   match handlers.findSome? (fun h => h op j) with
